@@ -201,7 +201,7 @@ package mongokit
 //@ func CreateIndex
 //@   trusted
 //@   modifies ghost.cov, ghost.tree
-//@   ensures imp(err == nil, result0 != nil && fresh(result0) && wfIndex(result0) && fresh(result0.base) && fresh(result0.base.btree))
+//@   ensures imp(err == nil, result0 != nil && fresh(result0) && wfIndex(result0) && fresh(result0.base) && fresh(result0.base.btree) && allocated(result0.base) && allocated(result0.base.btree))
 //@   ensures imp(err == nil, ghost.cov == upd(old(ghost.cov), result0, constarr(false)) && all(t, Ref, imp(t != result0.base.btree, ghost.tree[t] == old(ghost.tree)[t])))
 //@   ensures imp(err != nil, ghost.cov == old(ghost.cov) && ghost.tree == old(ghost.tree))
 
@@ -214,6 +214,8 @@ package mongokit
 //@   ensures [C15,C02,C03 name=fresh] result != nil && fresh(result)
 //@   ensures [C15 name=coherent] coherent(result)
 //@   ensures [C15 name=empty] len(result.Documents.List) == 0
+//@   ensures [C15 name=no-index-unless-asked] imp(!idIndex, all(n, Str, !has(result.Indexes, n)))
+//@   ensures [C15,C03 name=parts-exist] fresh(result.Documents) && fresh(result.Indexes) && allocated(result.Documents) && allocated(result.Indexes) && allocated(result.Documents.Index) && (cap(result.Documents.List) == 0 || allocated(result.Documents.List.base))
 //@   ensures [C15,C03 name=others-untouched] all(x, Ref, imp(preexisting(x), ghost.cov[x] == old(ghost.cov)[x] && ghost.tree[x] == old(ghost.tree)[x]))
 
 // Clone: a coherent collection of its own - a fresh set with the same documents
